@@ -37,6 +37,7 @@ fn alphabet() -> Vec<Op> {
         Op::Gauge(4, f64::NEG_INFINITY, None),
         Op::Hist(0, vec![], None, false),
         Op::Hist(0, vec![1.0], None, false),
+        Op::Hist(0, vec![3.0], Some(0.25), false), // the same key again with another sample rate
         Op::Hist(2, vec![1.0, 2.5, 3.0], Some(0.5), true),
         Op::Hist(0, (0..40).map(|i| i as f64).collect(), None, true),
         Op::Hist(3, vec![1.0, 1e300], None, false),
